@@ -439,6 +439,16 @@ def fam_listfind(v, n):
                 ops.append({"op": "sid_call", "from": {"s": item}, "m": "match", "search": s})
             if rng.random() < 0.08:
                 ops.append({"op": "glob_match", "pat": s.split("?")[0], "item": rng.choice(L)})
+        # a BROAD search (several answers, in list order), a '>' search on the same (possibly long-lived) instance,
+        # the broad search again: a sorted search must not leave the instance's list sorted
+        if leaves:
+            label, fields = rng.choice(leaves)
+            segs = [val for _, val in fields]
+            if len(segs) > 3:
+                broad = "/".join(segs[:2] + ["*"] * (len(segs) - 2))
+                gt = "/".join(segs[:2] + [">"] + ["*"] * (len(segs) - 3))
+                for s_b, m_b in ((broad, "find"), (gt, "find"), (broad, "find"), (broad, "find_one"), (gt, "find_one"), (broad, "find")):
+                    ops.append({"op": "find_list", "l": L, "s": s_b, "m": m_b, **flags})
         # an entry the configuration does not know (a closed-vocabulary segment replaced), placed BEFORE
         # the entry it was made from, and the star search that matches both: the first result is untyped
         typed_entries = [e for e in L if e.count("/") >= 2]
